@@ -375,7 +375,11 @@ struct Harness {
 
     void report(int p) {
         clear_text();
-        const char* txt = det->report((MemLeakPeriod) p);
+        emit_report(det->report((MemLeakPeriod) p));
+    }
+
+    // the text of a report: length + hash of the complete text, then the parsed entries
+    void emit_report(const char* txt) {
         std::string t(txt);
         // the complete text (header, entries with memory dumps, truncation, footer) is compared through its length and hash
         vh::emit("reporttext %lu %016llx", (unsigned long) t.size(), fnv1a(txt));
@@ -574,6 +578,14 @@ struct Harness {
                     period = mem_leak_period_enabled;
                     for (int k = 0; k < NSLOTS; k++)
                         if (g_tracked[k] && g_recperiod[k] == mem_leak_period_checking) g_recperiod[k] = mem_leak_period_enabled;
+                }
+                else if (w[1] == "final" && lwp && w.size() >= 3 && w[2].size() <= 6) {
+                    // FinalReport(n): "" when exactly n blocks are outstanding for the period it counts, else a report
+                    vh::emit("> plugin final %lu", (unsigned long) vh::to_u64(w[2]));
+                    clear_text();
+                    const char* txt = lwp->FinalReport((size_t) vh::to_u64(w[2]));
+                    if (txt[0] == 0) vh::emit("final empty");
+                    else { vh::emit("final report"); emit_report(txt); }
                 }
                 else if (w[1] == "ignore" && lwp) { vh::emit("> plugin ignore"); lwp->ignoreAllLeaksInTest(); }
                 else if (w[1] == "expect" && lwp && w.size() >= 3 && w[2].size() <= 6) {
